@@ -317,7 +317,12 @@ func (m *Machine) RunPath(pkg *ssa.Package, hfn *ssa.Function, prefix []int32, w
 					res.Cand.Decisions = res.Decisions
 				}
 			case "exit":
-				res.Status = "ok"
+				if m.exitOK {
+					res.Status = "ok"
+				} else {
+					res.Status = "inconclusive"
+					res.Reason = "unexpected " + r.msg
+				}
 			case "outside":
 				res.Status = "outside"
 				res.Reason = r.msg
